@@ -567,8 +567,53 @@ def gen_cases(rng, tier):
 
 # ----------------------------------------------------------------------------- monitor (implementation side)
 
+def side_ports(rules, col):
+    """the set of ports the installed rules match on one side, as sorted disjoint intervals; None = a mask that is not a prefix mask"""
+    iv = set()
+    for r in rules:
+        v, m = r[col], r[col + 1]
+        if m == 0:
+            iv.add((0, 65535))
+        elif m == 0xFFFF:
+            iv.add((v, v))
+        else:
+            k = (~m) & 0xFFFF
+            if k & (k + 1):
+                return None
+            iv.add((v & m, (v & m) | k))
+    out = []
+    for lo, hi in sorted(iv):
+        if out and lo <= out[-1][1] + 1:
+            out[-1] = (out[-1][0], max(out[-1][1], hi))
+        else:
+            out.append((lo, hi))
+    return out
+
+
+def mon_installed(o):
+    """what BESS would be given for the accepted filter's port ranges matches exactly the ranges of the filter (or the
+    pair is refused: allowed, nothing is installed then) and the expansion terminates"""
+    if o.get("rules_blocked"):
+        return ("installed-port-rules:expansion-does-not-terminate", f"the port-range expansion of the accepted filter {o.get('filter')} does not terminate")
+    if o.get("rules_panic"):
+        return ("installed-port-rules:panic", "the port-range expansion panicked: " + o["rules_panic"])
+    if "rules" not in o:
+        return None
+    fl = o["filter"]
+    for name, col in (("sports", 0), ("dports", 2)):
+        lo, hi = fl[name]
+        want = [(0, 65535)] if (lo, hi) in ((0, 0), (0, 65535)) else [(lo, hi)]
+        got = side_ports(o["rules"], col)
+        if got != want:
+            return ("installed-port-rules:other-ports", f"{name} {fl[name]} of the accepted filter are installed as rules matching {got} ({len(o['rules'])} rules)")
+    return None
+
+
 def mon_sdf(text, iface, ue, o):
     """inline SDF filter on an access (0) / core (1) PDR"""
+    m_ = mon_installed(o) if o.get("accepted") else None
+    if m_:
+        return m_
     cls = classify(text)
     if cls[0] == "other":
         return None
@@ -596,6 +641,9 @@ def mon_app(st, o):
     iface, ue = st["iface"], st["ue"]
     if iface not in (0, 1) or len(st["items"]) != 1:
         return None
+    m_ = mon_installed(o) if o.get("accepted") else None
+    if m_:
+        return m_
     table = {k: v for k, v in o["table"]}
     descs = table.get(st["items"][0]["id"])
     ueo = ue_only(iface, ue)
@@ -663,6 +711,8 @@ def mon_pfd(o):
 
 
 def monitor(c, o):
+    if isinstance(o, dict) and o.get("skipped"):
+        return []          # the harness process was told to stop after a runaway expansion; that case is reported
     """-> list of (signature, what, detail)"""
     i = c["in"]
     if "panic" in o:
@@ -861,6 +911,13 @@ def run(tier, seed, replay=None):
     try:
         binary = build_harness()
         obs = run_harness(binary, "c08", [c["in"] for c in cases])
+        nskip = sum(1 for o in obs if isinstance(o, dict) and o.get("skipped"))
+        if nskip:
+            # a runaway expansion made the harness stop early: the case that caused it is reported by the monitor, the
+            # cases behind it were not run
+            ck.notes["cases_not_run_after_runaway"] = nskip
+            pairs = [(c, o) for c, o in zip(cases, obs) if not (isinstance(o, dict) and o.get("skipped"))]
+            cases, obs = [c for c, _ in pairs], [o for _, o in pairs]
     except HarnessError as e:
         ck.tie("harness builds and runs against the current tree", False, str(e)[-1500:])
         return ck.finish()
